@@ -617,6 +617,9 @@ fn models(tier: Tier) -> Vec<(String, Arc<M>, Vec<Plan>)> {
         ));
         let (l, m) = mk(2, far_base, true);
         out.push((l, m, vec![Plan::Full { depth: 4 }]));
+        // three links: an SRTLA ACK arriving on a link that does not hold the number while two others do
+        let (l, m) = mk(3, 1000, true);
+        out.push((l, m, vec![Plan::Full { depth: 4 }]));
     } else {
         let (l, m) = mk(1, 1000, false);
         let d = send0(&m);
